@@ -352,7 +352,8 @@ Lemma label_loop_asym la lb :
   end.
 Proof.
   revert lb. induction la as [|[n v] ra IH]; intros [|[n' v'] rb]; simpl; try exact I.
-  rewrite (str_eqb_sym v' v). destruct (str_eqb v v'); simpl.
+  rewrite (str_eqb_sym n' n), (str_eqb_sym v' v). destruct (str_eqb n n'); simpl; [|apply str_ltb_asym].
+  destruct (str_eqb v v'); simpl.
   - specialize (IH rb). destruct (label_loop ra rb), (label_loop rb ra); auto.
   - apply str_ltb_asym.
 Qed.
